@@ -45,13 +45,15 @@ let check_cl (t : toks) : string =
                           | None -> s ^ "|C13.client_outcome_depends_on_segmentation")
             | None -> s)
          else s) in
-  if hang then bad ("ORACLE C10.call_never_returned " ^ where);
+  (* without any failure of the connection a call that never returns also means: it did not get its reply (C09), and -
+     when the replies came in another order than the calls - one call was held up by another (C08) *)
+  if hang then bad ((if failing then "ORACLE C10.call_never_returned " else "ORACLE C10.call_never_returned|C09.call_never_got_its_reply|C08.call_held_up_by_a_call_with_another_tag ") ^ where);
   (* after a failure every refused call must still give its tag back: 65535 leaked tags later ReqAlloc blocks for ever (C10) *)
   if not tagsback then bad ((if failing then "ORACLE C09.tags_not_recycled|C10.refused_or_failed_call_leaks_its_tag " else "ORACLE C09.tags_not_recycled ") ^ where);
   if disturbed then bad ("ORACLE C13.client_reply_disturbed_by_later_bytes|C09.call_holds_another_calls_data " ^ where);
   if not distinct then bad ("ORACLE C09.outstanding_tags_not_distinct " ^ where);
   List.iteri (fun i (c, own) ->
-      if c = "hang" then bad ("ORACLE C10.call_never_returned " ^ where)
+      if c = "hang" then bad ((if failing then "ORACLE C10.call_never_returned " else "ORACLE C10.call_never_returned|C09.call_never_got_its_reply|C08.call_held_up_by_a_call_with_another_tag ") ^ where)
       else begin
         if (c = "ok" || c = "rerr") && not own then
           bad (Printf.sprintf "ORACLE C09.call_got_another_calls_reply call=%d %s" i where);
